@@ -1412,5 +1412,8 @@ func (pool *TxPool) stats() (int, int) {
 }
 
 func (pool *TxPool) TransactionsNumber() (int, int) {
+	pool.mu.RLock()
+	defer pool.mu.RUnlock()
+
 	return pool.stats()
 }
